@@ -133,8 +133,9 @@ static std::string do_factory(std::istringstream& is) {
     int st = 0; char* dn = abi::__cxa_demangle(typeid(*o).name(), nullptr, nullptr, &st);
     std::string n = dn ? dn : typeid(*o).name(); free(dn);
     size_t k = n.rfind("::"); if (k != std::string::npos) n = n.substr(k + 2);
+    std::string ty = std::to_string(uint32_t(o->objectType));     // the code the freshly constructed object carries
     delete o;
-    return "factory " + std::to_string(code) + " " + n;
+    return "factory " + std::to_string(code) + " " + n + " type=" + ty;
 }
 
 static std::string handle(const std::string& line) {
